@@ -6,6 +6,7 @@ from __future__ import annotations
 
 import ast
 import json
+import zlib
 import os
 import pathlib
 import re
@@ -80,7 +81,7 @@ class Scratch:
         sdir = self.root / "schema" / BUILD_TAG
         sdir.mkdir(parents=True)
         for name, d in definitions.items():
-            (sdir / name).write_text(json.dumps(d, indent=2) + "\n")
+            (sdir / name).write_text(upstream_layout(d, name))
         (self.root / "error-codes.txt").write_text(error_codes_text if error_codes_text is not None else (PINS / "error-codes.txt").read_text())
         self.schema_dir = self.root / "src" / "kio" / "schema"
 
@@ -109,6 +110,37 @@ class Scratch:
 
     def __exit__(self, *a: object) -> None:
         self.close()
+
+
+_LICENCE = """// Licensed to the Apache Software Foundation (ASF) under one or more
+// contributor license agreements.  See the NOTICE file distributed with
+// this work for additional information regarding copyright ownership.
+//
+//    http://www.apache.org/licenses/LICENSE-2.0
+"""
+
+
+def upstream_layout(d: dict, name: str) -> str:
+    """The text of a definition file as upstream writes them: JSON with `//` comment lines - a licence header at column 0 and indented
+    notes between keys and between field objects (every real definition has both).  Every other file gets them; the rest is plain JSON."""
+    text = json.dumps(d, indent=2) + "\n"
+    if zlib.crc32(name.encode()) % 2:
+        return text
+    out = [_LICENCE.rstrip("\n"), ""]
+    opened = 0
+    for k, line in enumerate(text.splitlines()):
+        stripped = line.lstrip()
+        indent = line[: len(line) - len(stripped)]
+        if stripped.startswith('"validVersions"'):
+            out.append(indent + "// Version 1 is the same as version 0.")
+            out.append(indent + "//")
+            out.append(indent + "// Version 2 adds a field (\"quoted\", with a backslash \\ and a brace }).")
+        elif stripped == "{" and k > 0:
+            opened += 1
+            if opened % 2:
+                out.append(indent + "// a note between field objects")
+        out.append(line)
+    return "\n".join(out) + "\n"
 
 
 # ---------------------------------------------------------------------------------------
